@@ -247,10 +247,10 @@ impl RangeRawProof {
 /// Nine digit proofs for `digits` (least significant first); `claimed[j]` is the message the
 /// j-th proof commits to (normally the digit itself), `sig_of[j]` the digit whose published
 /// signature is used.
-pub fn range_raw(m: &MerchantCtx, digits_msg: &[u64; 9], sig_of: &[u64; 9], s: &mut Sched) -> RangeRawProof {
+pub fn range_raw(m: &MerchantCtx, digits_msg: &[u64], sig_of: &[u64], s: &mut Sched) -> RangeRawProof {
     let pk = &m.range.pk;
     let mut out = Vec::new();
-    for j in 0..9 {
+    for j in 0..digits_msg.len() {
         let bf = refc::rand_scalar(s);
         let raw = Raw2::new(pk.g2, vec![pk.y2s[0]], vec![Scalar::from(digits_msg[j])], bf, refc::rand_scalar(s), vec![refc::rand_scalar(s)]);
         let r = refc::rand_nonzero(s);
@@ -260,11 +260,24 @@ pub fn range_raw(m: &MerchantCtx, digits_msg: &[u64; 9], sig_of: &[u64; 9], s: &
     RangeRawProof { digits: out }
 }
 
-pub fn digits_of(v: u64) -> [u64; 9] {
-    let mut d = [0u64; 9];
+/// Number of digit proofs the wire format of a range constraint holds (read from a
+/// library-produced pay proof, so that it follows the library).
+pub fn digit_count(template: &Trace) -> usize {
+    let mut n = 0;
+    while template.find(&format!("customer_balance_proof.digit_proofs[{}].blinded_signature.sigma1", n)).is_some() {
+        n += 1;
+    }
+    if n == 0 {
+        crate::harness_error("forge: no digit proofs in the pay-proof template");
+    }
+    n
+}
+
+pub fn digits_of(v: u128, l: usize) -> Vec<u64> {
+    let mut d = vec![0u64; l];
     let mut x = v;
-    for j in 0..9 {
-        d[j] = x % 128;
+    for j in 0..l {
+        d[j] = (x % 128) as u64;
         x /= 128;
     }
     d
@@ -291,14 +304,16 @@ pub struct PayHidden {
     pub new_cl: [Scalar; 5],
     pub old_lock_committed: Scalar,
     /// values the range proofs decompose (normally the new balances)
-    pub cust_range_value: u64,
-    pub merch_range_value: u64,
+    pub cust_range_value: u128,
+    pub merch_range_value: u128,
+    /// digit proofs per range constraint
+    pub digits: usize,
 }
 
 pub struct PayKnobs {
     /// digit -> which published signature to use / which message to claim (None = honest)
-    pub cust_sig_of: Option<[u64; 9]>,
-    pub cust_digits_msg: Option<[u64; 9]>,
+    pub cust_sig_of: Option<Vec<u64>>,
+    pub cust_digits_msg: Option<Vec<u64>>,
     /// break one linking of commitment scalars: name of the link to leave independent
     pub unlink: Option<&'static str>,
 }
@@ -309,9 +324,9 @@ impl Default for PayKnobs {
 }
 
 pub fn pay_draft(m: &MerchantCtx, h: &PayHidden, token: &(G1Projective, G1Projective), knobs: &PayKnobs, s: &mut Sched) -> PayDraft {
-    let cd = knobs.cust_digits_msg.unwrap_or_else(|| digits_of(h.cust_range_value));
-    let cs_of = knobs.cust_sig_of.unwrap_or(cd);
-    let md = digits_of(h.merch_range_value);
+    let cd = knobs.cust_digits_msg.clone().unwrap_or_else(|| digits_of(h.cust_range_value, h.digits));
+    let cs_of = knobs.cust_sig_of.clone().unwrap_or_else(|| cd.clone());
+    let md = digits_of(h.merch_range_value, h.digits);
     let cust_range = range_raw(m, &cd, &cs_of, s);
     let merch_range = range_raw(m, &md, &md, s);
     let mut s_cb = cust_range.commitment_scalar();
@@ -457,8 +472,9 @@ pub fn honest_pay_hidden(rc: &RawCustomer, amount: i64, s: &mut Sched) -> (PayHi
         new_st: [rc.id, nonce, lock, Scalar::from(nc), Scalar::from(nm)],
         new_cl: [rc.id, refc::close_tag(), lock, Scalar::from(nc), Scalar::from(nm)],
         old_lock_committed: rc.state[2],
-        cust_range_value: nc,
-        merch_range_value: nm,
+        cust_range_value: nc as u128,
+        merch_range_value: nm as u128,
+        digits: 9,
     };
     (h, (lock, secret, index), nonce)
 }
